@@ -30,7 +30,7 @@ from vlib.shrink import shrink_seq
 
 ID = "C07"
 LEVEL = "exploration"
-BUDGET = {"quick": 75, "thorough": 900}
+BUDGET = {"quick": 200, "thorough": 1200}
 REPO = os.environ.get("VERIF_REPO", "/repo")
 RULE = (
     "case = (text t0 loadable by the default loader, encoder, options). t0 comes "
